@@ -131,3 +131,14 @@ TEXTS["C17"] = {
     "note": TB + " The bodies behind the gates (governance managers of bitxhub-core) are not modelled; that the gate's address lists contain only contract addresses is decided dynamically, not proved.",
     "technique": "Lean 4 table theorems (decide +kernel over the regenerated method/guard table) + decision-function theorems + differential correspondence + role x method probing with state dumps",
 }
+
+TEXTS["C08"] = {
+    "text": "Proved on the model of the executor loop for every block content the op language expresses: exactly one receipt per transaction (C08_one_receipt_per_tx), in block order (C08_receipts_in_block_order), "
+            "commit with the next height (C08_next_height), a rejected transaction still gets a (failed) receipt, the Go slice-bounds panic of the timeout-list removal loop is an explicit outcome turned into a failed receipt "
+            "(C08_remove_panic_is_contained); all model functions are total (Lean's termination checker). Crash-freedom of the Go code on inputs below the model's abstraction is decided by the correspondence run: the real executor "
+            "gets blocks of malformed transactions of every class (every exported contract method from the regenerated table with wrong arity/types/unknown type tags/unparsable numbers, raw and truncated payloads, arbitrary "
+            "TransactionData, malformed service ids, numeric extremes, malformed groups, proofs a rule rejects with an error or with plain false); a dead or panicking process, a missing receipt or a wrong height is a violation, and "
+            "whatever the model covers must agree. Two crashes found this way were repaired by fix: commits (PostInterchainEvent through the promoted Stub surface; nil error dereferenced when a rule answers plain false).",
+    "note": TB + " PARTIAL: totality of the Go code itself is shown only on generated inputs; goroutine-level hangs and the signature-verification goroutines are exercised but not modelled; EVM/XVM execution is outside the op language.",
+    "technique": "Lean 4 theorems on the executor-loop model (receipt count/order/height, contained panic) + differential correspondence under a malformed-input generator with crash detection",
+}
